@@ -30,9 +30,39 @@ def run(ctx: Ctx):
         total += len(r.prints)
         for v in r.prints:
             cl.replay_vector(ctx, v, ev, meta, "C08")
+            # the NAME of a parameter never changes how its value list is written or split (CN, TZID, VALUE ... are names
+            # the library knows, but the list grammar is the same for all)
+            if fam == "list" and len(v["c"]["ps"]) == 1 and v["dom08"]:
+                base = v["c"]["ps"][0]
+                nm_wire = {}
+                for nm in ("CN", "TZID", "MEMBER", "VALUE", "ENCODING", "X-Q", "DELEGATED-TO", "LANGUAGE"):
+                    ps2 = [dict(base, k=cl.L(nm))]
+                    wire, back = cl.do_paramsA(ps2)
+                    ctx.evaluations += 1
+                    nm_wire[nm] = (cl.S(wire).split("=", 1)[1] if "=" in cl.S(wire) else cl.S(wire),
+                                   [cl.S(x) for x in back["ps"][0]["vals"]] if back.get("ok") and back["ps"] else back)
+                if len({repr(x) for x in nm_wire.values()}) != 1:
+                    ctx.fail("P:C08:name-independent-list", {"c": v["c"], "impl_equal": False}, {k: x for k, x in nm_wire.items()}, None)
             # a one-element list / tuple is the same parameter value as its element (assumption below): same wire, same read-back
             ps = v["c"]["ps"]
             if fam == "scalar" and ps and all(len(p["vals"]) == 1 and not p["list"] for p in ps):
+                # a str SUBCLASS (incl. the library's own vText) as a parameter value is that string
+                from icalendar.prop import vText as _vText
+
+                class _S(str):
+                    pass
+                for mk in (_S, _vText):
+                    P = Parameters()
+                    for p in ps:
+                        P[cl.S(p["k"])] = mk(cl.S(p["vals"][0]))
+                    ctx.evaluations += 1
+                    try:
+                        wire = P.to_ical().decode("utf-8")
+                    except Exception as e:   # noqa: BLE001
+                        wire = "EXC:" + type(e).__name__
+                    scalar_wire = cl.to_params(ps).to_ical().decode("utf-8")
+                    if wire != scalar_wire:
+                        ctx.fail("P:C08:str-subclass-value", {"c": v["c"], "as": mk.__name__, "impl_equal": False}, wire, scalar_wire)
                 for seq in (list, tuple):
                     P = Parameters()
                     for p in ps:
